@@ -169,65 +169,7 @@ func init() {
 		NotDecided: "state equality is never computed: the argument is that no write happened, which is stronger. Batch calls are sequences of single-item calls (C19) and may have applied a prefix. Table-management calls are outside the statement. Mutation performed by user-supplied native updaters before they panic is outside scope.",
 		Assumes:    []string{"a function value of type interpreter.MatcherFunc supplied by the user does not mutate the item it is given", "SDK/stdlib calls do not mutate minidyn state"},
 		Rules: []RuleDef{
-			{ID: "R1", Desc: "core typestate: no error return / interpreter panic after the first state write (T-STATE)", Run: func(e *Engine) {
-				cs := e.coreModel()
-				if !e.anchor("R1", "core state fields (Table.Data, Table.SortedKeys, index.refs, index.sortedKeys)", cs == nil) {
-					return
-				}
-				n := 0
-				// scope: the statement is about data operations – core functions reachable from the clients' data methods
-				scope := map[*ssa.Function]bool{}
-				for _, role := range clientRoles {
-					for name, m := range e.clientMethods(role) {
-						if _, ok := dataOpNames[name]; ok {
-							for g := range e.reach(m) {
-								scope[g] = true
-							}
-						}
-					}
-				}
-				for _, fn := range e.funcs("core") {
-					if !scope[fn] {
-						continue
-					}
-					ws := cs.writeEvents(fn)
-					if len(ws) == 0 {
-						continue
-					}
-					hasExit := len(cs.errorExits(fn)) > 0
-					if !hasExit {
-						e.ob("R1", e.fname(fn)+":no-failure-after-write", e.pos(fn.Pos()), Pass, false, "writes state (%d sites) and has no failure exit", len(ws))
-						n++
-						continue
-					}
-					n++
-					cs.typestate("R1", fn, ws, func(w wEvent, x eExit) bool {
-						// the error produced by the writing call itself, outside any loop: the callee is judged on its own by this same rule
-						if x.errVal == nil {
-							return false
-						}
-						wv, ok := w.in.(ssa.Value)
-						if !ok || !derivesFrom(x.errVal, wv) {
-							return false
-						}
-						if mayFollow(w.in, w.in) {
-							return false // in a loop: an earlier iteration has written
-						}
-						// other writes before this one?
-						for _, w2 := range ws {
-							if w2.in != w.in && mayFollow(w2.in, w.in) {
-								return false
-							}
-						}
-						// the callee must be one whose own failure exits precede its writes (core: checked by R1; interpreter: by R2)
-						if strings.Contains(w.what, "in place") {
-							return true
-						}
-						return true
-					})
-				}
-				e.minCount("R1", 5)
-			}},
+			{ID: "R1", Desc: "core typestate: no error return / interpreter panic after the first state write (T-STATE)", Run: c08R1},
 			{ID: "R2", Desc: "interpreter commits to the caller's item only after every error test passed (T-DOM)", Run: c08R2},
 			{ID: "R3", Desc: "client data methods: fallible pre-steps are tested and dominate the core mutator; no unrelated failure after it", Run: c08R3},
 			{ID: "R4", Desc: "errors of core mutators are propagated, never dropped", Run: c08R4},
@@ -544,4 +486,65 @@ func c08R5(e *Engine) {
 	if bad == 0 {
 		e.pass("R5", "engine:items-immutable", "-", "%d stores into types.Item values, all into freshly allocated ones", n)
 	}
+}
+
+// c08R1: core typestate (shared with C01.R10).
+func c08R1(e *Engine) {
+	cs := e.coreModel()
+	if !e.anchor("R1", "core state fields (Table.Data, Table.SortedKeys, index.refs, index.sortedKeys)", cs == nil) {
+		return
+	}
+	n := 0
+	// scope: the statement is about data operations – core functions reachable from the clients' data methods
+	scope := map[*ssa.Function]bool{}
+	for _, role := range clientRoles {
+		for name, m := range e.clientMethods(role) {
+			if _, ok := dataOpNames[name]; ok {
+				for g := range e.reach(m) {
+					scope[g] = true
+				}
+			}
+		}
+	}
+	for _, fn := range e.funcs("core") {
+		if !scope[fn] {
+			continue
+		}
+		ws := cs.writeEvents(fn)
+		if len(ws) == 0 {
+			continue
+		}
+		hasExit := len(cs.errorExits(fn)) > 0
+		if !hasExit {
+			e.ob("R1", e.fname(fn)+":no-failure-after-write", e.pos(fn.Pos()), Pass, false, "writes state (%d sites) and has no failure exit", len(ws))
+			n++
+			continue
+		}
+		n++
+		cs.typestate("R1", fn, ws, func(w wEvent, x eExit) bool {
+			// the error produced by the writing call itself, outside any loop: the callee is judged on its own by this same rule
+			if x.errVal == nil {
+				return false
+			}
+			wv, ok := w.in.(ssa.Value)
+			if !ok || !derivesFrom(x.errVal, wv) {
+				return false
+			}
+			if mayFollow(w.in, w.in) {
+				return false // in a loop: an earlier iteration has written
+			}
+			// other writes before this one?
+			for _, w2 := range ws {
+				if w2.in != w.in && mayFollow(w2.in, w.in) {
+					return false
+				}
+			}
+			// the callee must be one whose own failure exits precede its writes (core: checked by R1; interpreter: by R2)
+			if strings.Contains(w.what, "in place") {
+				return true
+			}
+			return true
+		})
+	}
+	e.minCount("R1", 5)
 }
